@@ -129,6 +129,7 @@ fn item(ctx: &Ctx, i: usize, rep: &mut Report) {
     let snap0 = pdatastructs::verif::snapshot();
     let mut had_read = false;
     let check_every = if long { 1 + r.below(500) as usize } else { 1 };
+    let clone_at = if r.chance(0.25) { Some(r.below(n_ops as u64) as usize) } else { None };
     for s in 0..n_ops {
         let x = r.f64();
         let val = fam.gen(&mut r, s, n_ops) * vscale;
@@ -156,6 +157,9 @@ fn item(ctx: &Ctx, i: usize, rep: &mut Report) {
             hist.push(op.clone());
         }
         rep.evaluations += 1;
+        if clone_at == Some(s) {
+            t = t.boxed_clone();
+        }
         let res = guarded(|| -> Option<(String, String)> {
             match &op {
                 Op::Ins(v) => {
